@@ -1,4 +1,6 @@
 import CssVerif.Model.Struct
+import CssVerif.Model.StructCut
+import CssVerif.Model.StructText
 import CssVerif.Gen.C04Margins
 /-!
 Driver for C04 (K2 `Struct`).  One request per line:
@@ -9,6 +11,11 @@ Driver for C04 (K2 `Struct`).  One request per line:
   decls TOKS ORACLE               -> JSON list        `CSSStyleDeclaration.cssText = TOKS` (the seq)
   sheet TOKS ORACLE               -> JSON             `CSSStyleSheet.cssText = TOKS` (cssRules)
   nsq TOKS                        -> JSON list        keys of every statement starting at a NAMESPACE_SYM
+  text CPS ORACLE                 -> JSON             as `sheet`, on the tokens the TOKENIZER MODEL (C05 `Tok`) makes of
+                                                      the text CPS (hex code points): `sheetToks`, T4.5
+  cut TOKS ORACLE                 -> JSON             truncation certificate for TOKS (`findCut`), checked by
+                                                      `Cut.ok`; when it holds: the rule list that theorem
+                                                      `truncation_certified` predicts (same format as `sheet`)
 
 TOKS   = `TYPE:hex,TYPE:hex,…` (`-` = no tokens); the position of a token is its index.
 START  = `-` or one `TYPE:hex` (position 1000000).
@@ -201,6 +208,28 @@ def handle (line : String) : String :=
       let st := sheetLoop (oracleOf tb) CssVerif.Gen.C04.margins {} ts
       "{\"rules\":[" ++ jRules (cleanNamespaces st.rules) ++ "],\"expected\":" ++ toString st.expected
         ++ ",\"ns\":" ++ jNs st.nsmap ++ "}"
+    | _, _ => "bad-op"
+  | ["text", cpsHex, tb] =>
+    match decCps cpsHex, decTable tb with
+    | some text, some tb =>
+      let ts := sheetToksIdx text true
+      if !tokWF ts then "out-of-domain" else
+      let st := sheetLoop (oracleOf tb) CssVerif.Gen.C04.margins {} ts
+      "{\"rules\":[" ++ jRules (cleanNamespaces st.rules) ++ "],\"expected\":" ++ toString st.expected
+        ++ ",\"ns\":" ++ jNs st.nsmap ++ ",\"toks\":"
+        ++ q (",".intercalate (ts.map fun t => nameOfTT t.typ ++ ":" ++ encCps t.val)) ++ "}"
+    | _, _ => "bad-op"
+  | ["cut", ts, tb] =>
+    match decToks ts, decTable tb with
+    | some ts, some tb =>
+      if !tokWF ts then "out-of-domain" else
+      match findCut ts with
+      | none => "{\"ok\":false,\"shape\":\"empty\"}"
+      | some c =>
+        if decide (c.toks = ts) && c.ok then
+          "{\"ok\":true,\"shape\":" ++ q c.o.shape ++ ",\"units\":" ++ toString c.s₁.length ++ ",\"rules\":["
+            ++ jRules (cleanNamespaces (c.predict (oracleOf tb) CssVerif.Gen.C04.margins)) ++ "]}"
+        else "{\"ok\":false,\"shape\":" ++ q c.o.shape ++ "}"
     | _, _ => "bad-op"
   | ["nsq", ts] =>
     match decToks ts with
